@@ -98,6 +98,10 @@ def atlas_path_docs():
         },
         "/reserved/{client}": {"get": op("reserved_names", [P("client", "path", {"type": "string"}), P("url", "query", {"type": "string"}, False)])},
         "/noparams": {"get": op("no_params"), "post": op("no_params_post")},
+        # operations WITHOUT an operationId: the function / module name is derived from method + path
+        "/anon/{thing-id}/items/": {"get": {"responses": OK200, "parameters": [P("thing-id", "path", {"type": "integer"}), P("q", "query", {"type": "string"}, False)]},
+                                    "delete": {"responses": {"204": {"description": "gone"}}, "parameters": [P("thing-id", "path", {"type": "integer"})]}},
+        "/": {"get": {"responses": OK200}},
         "/secure": {"get": op("secure_op", [P("q", "query", {"type": "string"}, False)], security=[{"key": []}])},
         "/literal/{a}/{{x}}": {"get": op("literal_braces", [P("a", "path", {"type": "string"})])} if False else {"get": op("plain2")},
     }
@@ -126,6 +130,8 @@ def atlas_body_docs():
         "/multipart/model": {"post": op("multipart_model", body={"content": {"multipart/form-data": {"schema": {"$ref": REF + "Upload"}}}})},
         "/multipart/nullfirst": {"post": op("multipart_null_first", body={"content": {"multipart/form-data": {"schema": {"$ref": REF + "NullFirst"}}}})},
         "/octet/raw": {"post": op("octet_raw", body={"content": {"application/octet-stream": {"schema": {"type": "string", "format": "binary"}}}})},
+        "/byref/json": {"post": op("body_by_ref", body={"$ref": "#/components/requestBodies/ItemBody"})},
+        "/byref/chain": {"put": op("body_by_ref_chain", body={"$ref": "#/components/requestBodies/Alias"})},
         "/mixed/unsupported": {"post": op("mixed_unsupported", body={"content": {"application/xml": {"schema": {"type": "string"}}, "application/json": {"schema": {"$ref": REF + "Item"}},
                                                                                  "text/plain": {"schema": {"type": "string"}}, "application/vnd.x+json": {}}})},
         "/json/charset": {"post": op("json_charset", body={"content": {"application/json; charset=utf-8": {"schema": {"$ref": REF + "Item"}}}})},
@@ -136,7 +142,9 @@ def atlas_body_docs():
                   "stamp": {"type": "string", "format": "date-time"}, "uid": {"type": "string", "format": "uuid"}, "lvl": any_of({"$ref": REF + "Level"}, NULL)},
                  required=["title", "count"])
     nullfirst = obj({"a": {"anyOf": [NULL, {"type": "string"}]}, "b": any_of({"type": "string"}, NULL)}, required=["a", "b"])
-    return [("bodies", doc(paths, schemas={"Upload": upload, "NullFirst": nullfirst}))]
+    extra = {"components": {"requestBodies": {"ItemBody": {"content": {"application/json": {"schema": {"$ref": REF + "Item"}}}, "required": True},
+                                               "Alias": {"$ref": "#/components/requestBodies/ItemBody"}}}}
+    return [("bodies", doc(paths, schemas={"Upload": upload, "NullFirst": nullfirst}, extra=extra))]
 
 
 def atlas_response_docs():
